@@ -68,10 +68,14 @@ impl<T: RefCnt> HybridProtection<T> {
         // First, we claim a debt slot and store the address of the atomic pointer there, so the
         // writer can optionally help us out with loading and protecting something.
         let gen = node.new_helping(storage as *const _ as usize);
-        // We already synchronized the start of the sequence by SeqCst in the new_helping vs swap on
-        // the pointer. We just need to make sure to bring the pointee in (this can be newer than
-        // what we got in the Debt)
-        let candidate = storage.load(Acquire);
+        // The SeqCst in the new_helping vs swap on the pointer on the writer's side forms a
+        // store-buffering (Dekker) pair: either the writer sees our transaction and helps, or we
+        // must see the writer's new pointer here. That works only if this load takes part in the
+        // single total order too, so SeqCst it is ‒ with mere Acquire we could get the pointer
+        // the writer has already replaced (and possibly released) while nobody helps us. The
+        // Acquire part of it brings the pointee in (this can be newer than what we got in the
+        // Debt).
+        let candidate = storage.load(SeqCst);
 
         // Try to replace the debt with our candidate. If it works, we get the debt slot to use. If
         // not, we get a replacement value, already protected and a debt to take care of.
